@@ -61,6 +61,14 @@ ProbeBounds == {Unb} \cup {[kind |-> kd, k |-> k] : kd \in {"inc", "exc"}, k \in
 RangeOkMC == RangeOkFor(ProbeBounds)
 CursorOkMC == CursorOkFor(ProbeKeys)
 
+(* "Teeth": with a deviation listed in Quirks (the behaviour before its repair) the    *)
+(* model must still reach the states in which it shows itself, i.e. TLC must report     *)
+(* these invariants violated; the exported programs must then NOT fail on the repaired  *)
+(* code (checks/c18.py, teeth()).                                                       *)
+TeethSep    == ~KnownSep
+TeethCursor == ~KnownCursor
+TeethRange  == StrictRangeOkFor(ProbeBounds)
+
 (* Exported once per explored transition (an edge cover of the state graph, *)
 (* `hist` and `steps` being hidden by the VIEW):                            *)
 (*   scan   what the ordered map holds after the last step -- every get,    *)
